@@ -36,8 +36,10 @@ def is_ptm(fn, s):
     return n.get('k') == 'binop' and n['op'] in ('->*', '.*')
 
 
-def flag_ops(fn, kinds=None):
-    """atomic operations on the cancellation flag: by member name or through the pointer-to-member state argument"""
+def flag_ops(fn, kinds=None, inline=True):
+    """atomic operations on the cancellation flag: by member name or through the pointer-to-member state argument.  Operations of
+    a local lambda that fn calls directly are reported at the position of the call (a helper lambda is part of the function);
+    such an entry carries 'fn' = the lambda (its node ids are the lambda's) and 'inlined'."""
     out = []
     for pos, op in atomic_ops(fn):
         if op['kind'] == 'fence':
@@ -45,6 +47,14 @@ def flag_ops(fn, kinds=None):
         if last_member(fn, op['obj']) == FLAG or is_ptm(fn, op['obj']):
             if kinds is None or op['kind'] in kinds:
                 out.append((pos, op))
+    if inline:
+        for pos, s, node, d in calls(fn):
+            g = fn.facts.fns.get(node.get('fn'))
+            if g is not None and g.kind == 'lambda' and g.d.get('lparent') == fn.u:
+                for p2, op2 in flag_ops(g, kinds, inline=False):
+                    o3 = dict(op2)
+                    o3.update(fn=g, inlined=True, ln=node.get('ln'), inner_pos=p2)
+                    out.append((pos, o3))
     return out
 
 
@@ -105,15 +115,18 @@ ALLOWED_WRITERS = {
 def d2_writers(facts, rep):
     seen = set()
     for fn in list(facts.fns.values()):
-        ws = flag_ops(fn, kinds=('store', 'rmw', 'cas'))
+        ws = flag_ops(fn, kinds=('store', 'rmw', 'cas'), inline=False)
         if not ws:
             continue
         # pointer-to-member accesses are only the flag when the function handles task_group_context state
         ws = [(p, o) for p, o in ws if last_member(fn, o['obj']) == FLAG or 'task_group_context' in fn.q or 'propagate_task_group_state' in fn.p]
         if not ws:
             continue
-        kind = ALLOWED_WRITERS.get(fn.p)
-        seen.add(fn.p)
+        owner = fn
+        if fn.kind == 'lambda' and facts.fns.get(fn.d.get('lparent')) is not None:
+            owner = facts.fns[fn.d['lparent']]          # a helper lambda is part of the function that defines it
+        kind = ALLOWED_WRITERS.get(owner.p)
+        seen.add(owner.p)
         rep.ob('D2', 'K1', fn, 'writer of the cancellation flag is in the writer table', kind is not None,
                '%s writes the cancellation flag (%s) but is not one of initialize/reset/bind_to_impl/cancel_group_execution/'
                'propagate_task_group_state' % (fn.p, ', '.join(o['name'] for _, o in ws)))
@@ -309,7 +322,7 @@ def d4_binding(facts, rep):
         # the parent (the list the propagator paints together with the parent): same access-path prefix as the flag that is copied
         srcs = set()
         for p_, o_ in flag_ops(fn, kinds=('load',)):
-            pth = fn.path(o_['obj'])
+            pth = o_.get('fn', fn).path(o_['obj'])
             if '->' in pth:
                 srcs.add(pth.rsplit('->', 1)[0])
         ok_owner = bool(snap) and bool(srcs) and all(any(fn.path(o['obj']).startswith(src + '->') for src in srcs) for _, o in snap)
@@ -365,7 +378,7 @@ def d4_binding(facts, rep):
                 # path; the store (which may be conditional: only a raised state is copied) is followed by register_with
                 lp = sp
                 v0 = so.get('val', -1)
-                if v0 >= 0:
+                if v0 >= 0 and not so.get('inlined'):
                     for x in fn.subtree(resolve_cond_source(fn, Defs(fn), v0)):
                         opx = atomic_op(fn, x)
                         if opx and opx['kind'] == 'load' and last_member(fn, opx['obj']) == FLAG and fn.pos_of(x) is not None:
@@ -387,6 +400,44 @@ def d4_binding(facts, rep):
                        locked or in_nogp, 'unlocked re-copy while a propagation from a grand-ancestor may be running', ln=so['ln'],
                        key_extra=str(so['ln']))
         rep.ob('D4', 'K4', fn, 'a speculative copy exists on the grand-parent path', nspec >= 1, 'no copy before registration')
+        # The copy that counts is the one a path ends with.  Registration (the full fence) makes the context reachable for
+        # propagations that start later; a state read BEFORE it is only a speculation, valid if no propagation was in flight,
+        # which the binder learns from the epoch comparison after the registration.  So on every path through the function:
+        # after register_with() the parent's state is read again, or the path passes the edge on which the snapshot equals the
+        # global epoch.  (Path-sensitive in local flags such as `has_grand_ancestors`.)
+        from engine.rules import product_walk_from, bool_vars_tracker
+        on_elem, on_edge = bool_vars_tracker(fn)
+        loadpos = set(p_ for p_, _ in parent_loads)
+        defs4 = Defs(fn)
+        gl_nodes = set(o['s'] for _, o in gload)
+
+        def validated_edge(b, si):
+            for (a, truth) in fn.edge_conds(b, si):
+                nd = fn.n(fn.strip(a))
+                if nd.get('k') == 'binop' and nd['op'] in ('!=', '==') and (fn.subtree(fn.strip(a)) & gl_nodes):
+                    if truth == (nd['op'] == '=='):
+                        return True
+            return False
+
+        def e_tr(state, b, si):
+            st2 = on_edge(state[1], b, si)
+            if st2 is None:
+                return None
+            return (state[0] or validated_edge(b, si), st2)
+
+        def el_tr(state, p_, e_):
+            if p_ in loadpos:
+                return None                       # the state is read (again) after the registration: fine
+            return (state[0], on_elem(state[1], e_))
+        unsafe = False
+        for r in regs:
+            visits, exits = product_walk_from(fn, r[0], (False, ()), el_tr, e_tr)
+            if any(not st[0] for st in exits):
+                unsafe = True
+        rep.ob('D4', 'K4', fn, 'on every path the binder ends with a state read after its registration, or with a validated speculation', not unsafe,
+               'a path leaves bind_to_impl with a copy of the parent\'s state that was read before register_with() and is never validated by '
+               'the epoch comparison: a cancellation of the parent whose walk of this thread\'s list finished before the registration is missed - '
+               'the child stays uncancelled beneath a cancelled parent', key_extra='final-read')
         # lock identity: binder's fallback lock vs. the propagator's lock
         binder_keys = set()
         for v, i in info.items():
